@@ -1,10 +1,10 @@
 package main
 
 import (
-	"sort"
 	"fmt"
 	"go/token"
 	"go/types"
+	"sort"
 	"strings"
 
 	"golang.org/x/tools/go/ssa"
@@ -583,7 +583,6 @@ func ruleBarWait(w *World, r *Report, pfx string) {
 	r.Check(ok && n == 1, rule, "API:Bar.Wait", w.pos(fn.Pos()), "waits for the ready channel (closed after the state is final and published)", "Bar.Wait does not wait for the bar's ready channel: it can return before the bar goroutine fixed the terminal flags (a cancelled bar observed neither completed nor aborted)")
 }
 
-
 // ruleThreadSafeAverage (C10): the mutex wrapper around a moving average. Every method of the
 // wrapper makes its single call of the wrapped average between Lock and Unlock of the wrapper's
 // own mutex on every path, and the constructor is idempotent: an argument that already is the
@@ -719,7 +718,6 @@ func ruleThreadSafeAverage(w *World, r *Report, rule string) {
 	}
 	r.Floor(rule, 4, "constructor and Add, Value, Set")
 }
-
 
 // ruleNoCallerAlias (O-ALIAS): a slice that an option setter stores into the bar / container state is
 // the library's own: built from nil / make by append, never a (re)slice of a slice parameter of
